@@ -45,6 +45,8 @@ def cop(o):
     if t == "extend":
         pairs = list(dict(o[1]).items()) if o[2] == "dict" else o[1]
         return "(OExtend %s)" % citems(pairs)
+    if t == "extend_self":
+        return "OExtendSelf"
     if t == "clear":
         return "OClear"
     if t == "copy":
@@ -78,12 +80,44 @@ def apply_op(d, o):
     if t == "extend":
         arg = {"list": list(o[1]), "dict": dict(o[1]), "md": MultiDict(o[1]), "iter": iter(list(o[1]))}[o[2]]
         return d, catch(d.extend, arg)
+    if t == "extend_self":
+        # the argument aliases the dict.  Bounded: code that reads the live list while appending to it never ends,
+        # so the aliasing iterable stops after 4*len+8 pairs and a result longer than twice the old length is
+        # reported as non-termination.
+        import itertools
+        n0 = len(d)
+        if o[1] == "self":
+            return d, _extend_self_bounded(d)
+        arg = d.items() if o[1] == "items" else iter(d.items())
+        r = catch(d.extend, itertools.islice(iter(arg), 4 * n0 + 8))
+        if len(d) > 2 * n0:
+            return d, Err("NonTermination")
+        return d, r
     if t == "clear":
         return d, catch(d.clear)
     if t == "copy":
         c = d.copy()
         return c, None
     raise ValueError(o)
+
+
+def _extend_self_bounded(d):
+    """d.extend(d) with a watchdog: run in a thread-free way by giving the dict a length-limited items() view is not
+    possible (the code reads d.items() itself), so the call is made on a subclass instance sharing the list whose
+    items() stops after a bound; a result longer than twice the old length is reported as non-termination."""
+    import itertools
+    n0 = len(d)
+
+    class Bounded(type(d)):
+        def items(self):  # noqa
+            return itertools.islice(type(d).items(self), 4 * n0 + 8)
+
+    alias = Bounded.__new__(Bounded)
+    alias.__dict__ = d.__dict__
+    r = catch(d.extend, alias)
+    if len(d) > 2 * n0:
+        return Err("NonTermination")
+    return r
 
 
 def canon_dict(r, d, norm):
@@ -168,6 +202,9 @@ class Ref:
             return None
         if t == "extend":
             l.extend(list(dict(o[1]).items()) if o[2] == "dict" else o[1])
+            return None
+        if t == "extend_self":
+            l.extend(list(l))
             return None
         if t == "clear":
             self.l = []
@@ -265,6 +302,8 @@ def op_universe():
     u.append(("extend", [("b", "5"), ("b", "6")], "md"))
     u.append(("extend", [("a", "5"), ("b", "6")], "dict"))
     u.append(("extend", [("A", "8")], "iter"))
+    u.append(("extend_self", "self"))
+    u.append(("extend_self", "items"))
     return u
 
 
@@ -276,7 +315,7 @@ def rand_pairs(rng, n=3):
 def rand_op(rng):
     keys = KEYS + ["Content-Type", "content-type", "CONTENT-TYPE", "\xc9t\xe9", "\xe9T\xc9", "c"]
     t = rng.choice(["set", "set", "add", "add", "del", "pop", "pop", "popitem", "setdefault", "update", "update_dict",
-                    "update_md", "extend", "clear", "copy"])
+                    "update_md", "extend", "extend_self", "clear", "copy"])
     k = rng.choice(keys)
     v = rng.choice(VALS + ["", "v w", "\xff"])
     if t in ("set", "add"):
@@ -292,6 +331,8 @@ def rand_op(rng):
         return (t, rand_pairs(rng))
     if t == "extend":
         return (t, rand_pairs(rng), rng.choice(["list", "dict", "md", "iter"]))
+    if t == "extend_self":
+        return (t, rng.choice(["self", "items", "iter"]))
     return (t,)
 
 
